@@ -93,7 +93,9 @@ class StmtMixin:
         if st.value is None:
             return
         val = self.eval(st.value, env)
-        if isinstance(val, EmptyLiteral) or (isinstance(val, V) and val.ty == TNone):
+        if isinstance(st.target, ast.Attribute):
+            pass  # a field: its declared (sidecar / class model) type decides, see assign()
+        elif isinstance(val, EmptyLiteral) or (isinstance(val, V) and val.ty == TNone):
             try:
                 ty = self.types.parse(st.annotation, env.module)
                 val = self.materialize(val, ty)
@@ -526,7 +528,47 @@ class StmtMixin:
         return any(self.index.exc_is_subclass(e.exc_type, n) for n in names)
 
     def s_With(self, st, env):
-        raise Unsupported("with statement")
+        """`with f(args) [as name]:` where f is a repository generator function decorated with @contextmanager whose
+        body has exactly one `yield`, as a top-level expression statement (not inside try/with/loops).  contextlib
+        semantics for that shape: run the statements before the yield (the yielded value is bound to `name`), run the
+        with-body; on NORMAL completion of the body run the statements after the yield; if the body raises, returns,
+        breaks or continues, the generator is abandoned at the yield (exception thrown in / closed) and, there being no
+        try around it, none of the remaining statements run and the exit propagates unchanged."""
+        if len(st.items) != 1:
+            raise Unsupported("with statement (several items)")
+        item = st.items[0]
+        ce = item.context_expr
+        if not (isinstance(ce, ast.Call) and isinstance(ce.func, ast.Name)):
+            raise Unsupported("with statement")
+        callee = self.eval(ce.func, env)
+        from .model import FuncRef
+
+        if not isinstance(callee, FuncRef) or callee.cls is not None:
+            raise Unsupported("with statement")
+        fn = callee.node
+        if not any(getattr(d, "id", getattr(d, "attr", None)) == "contextmanager" for d in fn.decorator_list):
+            raise Unsupported("with statement (not a @contextmanager function)")
+        ys = [n for n in ast.walk(fn) if isinstance(n, (ast.Yield, ast.YieldFrom))]
+        top = [i for i, b in enumerate(fn.body) if isinstance(b, ast.Expr) and isinstance(b.value, ast.Yield)]
+        if len(ys) != 1 or len(top) != 1 or any(isinstance(n, ast.Return) for n in ast.walk(fn)):
+            raise Unsupported("with statement (generator shape)")
+        yi = top[0]
+        args, kwargs = self.eval_args(ce, env)
+        loc = self.bind_args(fn, None, args, kwargs, callee.module, None)
+        genv = Env(loc, callee.module, None, fn)
+        genv.contract, genv.fname, genv.anchors, genv.local_types = None, fn.name, {}, {}
+        if self.depth > 12:
+            raise Unsupported("inline depth")
+        self.depth += 1
+        try:
+            self.exec_block(fn.body[:yi], genv)
+            yv = fn.body[yi].value.value
+            if item.optional_vars is not None:
+                self.assign(item.optional_vars, self.eval(yv, genv) if yv is not None else NONE, env)
+            self.exec_block(st.body, env)  # any PyRaise / PyReturn / PyBreak / PyContinue / PathEnd propagates: generator abandoned
+            self.exec_block(fn.body[yi + 1:], genv)
+        finally:
+            self.depth -= 1
 
     def s_FunctionDef(self, st, env):
         env.locals[st.name] = Closure(st, env)
